@@ -234,24 +234,46 @@ type InterFinding struct {
 	Events      []string `json:"events,omitempty"`
 }
 
-// interJob is a subtree of a program's schedule tree: all schedules whose FIRST non-default
-// choice is value V at scheduling point I (I = -1: the default schedule alone). The subtrees
-// partition the tree, so they can be explored by different worker processes.
+// interJob is a part of a program's schedule tree. Prefix is empty or ends with a non-default
+// (non-zero) choice. Single = exactly the one schedule "Prefix, then default choices"; otherwise the
+// job is the whole subtree below Prefix (all continuations after Prefix's last point).
+// The jobs partition the tree, so worker processes can explore them independently.
 type interJob struct {
-	Prog, I, V int
+	Prog   int
+	Prefix []int
+	Single bool
 }
 
-func interJobs(pgs []Program, bound int) ([]interJob, error) {
+// interJobs derives the job list (identically in every worker). depth 1: one subtree per first
+// non-default choice; depth 2 (thorough): one subtree per first two non-default choices, which
+// balances the load much better for higher preemption bounds.
+func interJobs(pgs []Program, bound int, depth int) ([]interJob, error) {
 	var jobs []interJob
 	for pi := range pgs {
-		o, err := runSchedule(&pgs[pi], nil, boundFor(&pgs[pi], bound))
+		b := boundFor(&pgs[pi], bound)
+		o, err := runSchedule(&pgs[pi], nil, b)
 		if err != nil {
 			return nil, err
 		}
-		jobs = append(jobs, interJob{pi, -1, 0})
+		jobs = append(jobs, interJob{Prog: pi, Prefix: nil, Single: true})
 		for i, p := range o.Points {
 			for v := 1; v < p.allowed; v++ {
-				jobs = append(jobs, interJob{pi, i, v})
+				pre1 := append(make([]int, i), v)
+				if depth < 2 {
+					jobs = append(jobs, interJob{Prog: pi, Prefix: pre1})
+					continue
+				}
+				o1, err := runSchedule(&pgs[pi], pre1, b)
+				if err != nil {
+					return nil, err
+				}
+				jobs = append(jobs, interJob{Prog: pi, Prefix: pre1, Single: true})
+				for i2 := i + 1; i2 < len(o1.Points); i2++ {
+					for v2 := 1; v2 < o1.Points[i2].allowed; v2++ {
+						pre2 := append(append(append([]int{}, pre1...), make([]int, i2-i-1)...), v2)
+						jobs = append(jobs, interJob{Prog: pi, Prefix: pre2})
+					}
+				}
 			}
 		}
 	}
@@ -270,12 +292,8 @@ func betterFinding(a, b InterFinding) bool { // a better than b
 
 // exploreSubtree is the preemption-bounded DFS over the schedules of one job, accumulating into st.
 func exploreSubtree(pg *Program, job interJob, jobIdx int, bound int, stop func() bool, st *interStats, finals map[string]bool, best map[string]InterFinding) {
-	prefix := []int{}
-	floor := 0
-	if job.I >= 0 {
-		prefix = append(make([]int, job.I), job.V)
-		floor = job.I + 1
-	}
+	prefix := append([]int{}, job.Prefix...)
+	floor := len(job.Prefix)
 	st.Jobs++
 	for {
 		if stop() {
@@ -331,7 +349,7 @@ func exploreSubtree(pg *Program, job interJob, jobIdx int, bound int, stop func(
 				break
 			}
 		}
-		if i < floor {
+		if i < floor || job.Single {
 			return
 		}
 		prefix = append(append([]int{}, full[:i]...), full[i]+1)
